@@ -482,15 +482,83 @@ def override_stream(ctx, res, n):
                             dict(case, before=tree0, after=tree1))
 
 
+def dict_order_and_dotted_override_stream(ctx, res):
+    """(a) a rejected replacement of an entry of a typed dict whose value field has a validator of the application's own: the dict is
+    as before entry for entry IN ORDER, entries holding None included (an equality test would not see a moved entry);
+    (b) a command-line override whose dotted key points INTO a dict field that is still unset, or names an entry the dict refuses:
+    the configuration is as before (values, marks, tree)"""
+    import argparse
+    import cincoconfig as cc
+
+    def small(cfg, v):
+        if v is not None and v > 9:
+            raise ValueError("too large")
+        return v
+    for holder in ("root", "item"):
+        s = cc.Schema()
+        item = cc.Schema()
+        item.limits = cc.DictField(cc.StringField(transform_case="lower"), cc.IntField(validator=small), default=dict)
+        s.limits = cc.DictField(cc.StringField(transform_case="lower"), cc.IntField(validator=small), default=dict)
+        s.items = cc.ListField(item, default=lambda: [])
+        cfg = s()
+        cfg.items = [{}]
+        owner = cfg if holder == "root" else cfg.items[0]
+        for key, bad, route in (("gamma", -50, "setitem"), ("alpha", "many", "setitem"), ("BETA", 44, "setitem"), ("delta", 99, "update-keyword"), ("gamma", 10, "dotted"), ("alpha", [1], "update-map")):
+            owner.limits = {"gamma": None, "delta": 4, "alpha": 1, "beta": 2}
+            d = owner.limits
+            before = list(d.items())
+            tree0 = cfg.to_tree()
+            try:
+                if route == "setitem":
+                    d[key] = bad
+                elif route == "update-keyword":
+                    d.update(**{key: bad})
+                elif route == "update-map":
+                    d.update({key: bad})
+                else:
+                    owner["limits"][key] = bad
+                raised = False
+            except Exception:  # noqa
+                raised = True
+            case = {"stream": "dict-order", "holder": holder, "key": key, "value": repr(bad), "route": route}
+            res.case(stable(case) if raised else None, kind="dict-order:" + ("rejected" if raised else "accepted"))
+            if raised and (list(owner.limits.items()) != before or owner.limits is not d or cfg.to_tree() != tree0 or list(cfg.to_tree()["limits" if holder == "root" else "items"]) != list(tree0["limits" if holder == "root" else "items"])):
+                res.violate("C06:proxy-changed-state:order", "a rejected replacement of a dict entry changed the typed dict (an entry moved, or an entry holding None disappeared)",
+                            dict(case, before=repr(before), after=repr(list(owner.limits.items()))))
+    for dotted, value in (("app.labels.Env", "prod"), ("app.labels.env", 5), ("app.db.options.timeout", "soon"), ("app.db.options.timeout", 5), ("app.labels", "not a map"), ("app.tags.0", "x")):
+        s = cc.Schema()
+        s.app.name = cc.StringField(default="demo")
+        s.app.labels = cc.DictField(cc.StringField(transform_case="lower", choices=["env", "tier"]), cc.StringField())
+        s.app.db.host = cc.StringField(default="localhost")
+        s.app.db.options = cc.DictField(cc.StringField(), cc.IntField())
+        s.app.tags = cc.ListField(cc.StringField())
+        s.app.port = cc.IntField(default=8080)
+        cfg = s()
+        marks0 = {k: cc.is_value_defined(cfg, k) for k in ("app.name", "app.labels", "app.db.options", "app.tags", "app.port", "app.db.host")}
+        tree0 = cfg.to_tree()
+        try:
+            cc.cmdline_args_override(cfg, argparse.Namespace(**{dotted: value, "app.port": None}))
+            raised = False
+        except Exception:  # noqa
+            raised = True
+        case = {"stream": "dotted-override", "key": dotted, "value": repr(value)}
+        res.case(stable(case) if raised else None, kind="dotted-override:" + ("rejected" if raised else "accepted"))
+        marks1 = {k: cc.is_value_defined(cfg, k) for k in marks0}
+        if raised and (cfg.to_tree() != tree0 or marks1 != marks0):
+            res.violate("C06:override-changed-state", "a rejected command-line override whose key points into an unset container changed the configuration",
+                        dict(case, before=tree0, after=cfg.to_tree(), marks_before=marks0, marks_after=marks1))
+
+
 def run(ctx, n_quick=200, n_thorough=6000):
     res = Result()
-    P.run_stream(ctx, res, "C06", ctx.n(n_quick, n_thorough), oracle, gen_ops=gen_ops)
+    guard(res, "C06", lambda: P.run_stream(ctx, res, "C06", ctx.n(n_quick, n_thorough), oracle, gen_ops=gen_ops))
     guard(res, "C06", proxy_stream, ctx, res, ctx.n(60, 2000))
     guard(res, "C06", container_validator_stream, ctx, res, ctx.n(40, 1500))
     guard(res, "C06", moved_item_stream, ctx, res, ctx.n(60, 2000))
     guard(res, "C06", validated_container_element_stream, ctx, res, ctx.n(20, 600))
     guard(res, "C06", doc_stream, ctx, res, ctx.n(3, 60))
     guard(res, "C06", override_stream, ctx, res, ctx.n(150, 3000))
+    guard(res, "C06", dict_order_and_dotted_override_stream, ctx, res)
     return res
 
 
